@@ -26,6 +26,7 @@ func fmtArgs() []fmtArg {
 		{"int-cp", &tengo.Int{Value: 0x1F600}, int64(0x1F600)},
 		{"f1.5", &tengo.Float{Value: 1.5}, float64(1.5)},
 		{"f-0", &tengo.Float{Value: negZero()}, negZero()},
+		{"f-2.5", &tengo.Float{Value: -2.5}, float64(-2.5)},
 		{"f1e21", &tengo.Float{Value: 1e21}, float64(1e21)},
 		{"f1e-7", &tengo.Float{Value: 1e-7}, float64(1e-7)},
 		{"fnan", &tengo.Float{Value: nan()}, nan()},
@@ -513,4 +514,118 @@ func C17_Sequence() {
 		vf.Fail("a directive after another directive " + how + " prints what it prints alone (as fmt.Sprintf) | `" + d1 + "` then `" + d2 + "` arg " + a.name + " got " + got + " want " + want)
 	}
 	vf.Reach("sequence")
+}
+
+
+// ---- two flags, a width, a verb
+
+func isFlagByte(c byte) bool { return c == '#' || c == '0' || c == '+' || c == '-' || c == ' ' }
+
+func isVerbByte(c byte) bool {
+	switch c {
+	case 'v', 't', 'b', 'c', 'd', 'o', 'O', 'q', 'x', 'X', 'U', 'e', 'E', 'f', 'F', 'g', 'G', 's':
+		return true
+	}
+	return false
+}
+
+// C17_FlagPairs: '%' + two symbolic flag bytes + a width ('*' with operand 12
+// or -12, or the literal 12.2) + a symbolic verb byte, arguments of every
+// kind (signed and unsigned numbers): every pair of flags interacts with the
+// width, the sign and the verb as in fmt.Sprintf.
+func C17_FlagPairs() {
+	f1, f2, v := vf.Byte("f1"), vf.Byte("f2"), vf.Byte("verb")
+	vf.Assume(isFlagByte(f1))
+	vf.Assume(isFlagByte(f2))
+	vf.Assume(isVerbByte(v))
+	names := []string{"int-7", "int42", "f-2.5", "f1.5", "fnan", "str", "bytes", "true"}
+	name := names[vf.Choice("arg", len(names))]
+	var a fmtArg
+	for _, x := range fmtArgs() {
+		if x.name == name {
+			a = x
+		}
+	}
+	shape := vf.Choice("shape", 3)
+	var dir []byte
+	var objs []tengo.Object
+	var govs []interface{}
+	switch shape {
+	case 0, 1:
+		dir = []byte{f1, f2, '*', v}
+		w := 12
+		if shape == 1 {
+			w = -12
+		}
+		objs, govs = append(objs, &tengo.Int{Value: int64(w)}), append(govs, w)
+	default:
+		dir = []byte{f1, f2, '1', '2', '.', '2', v}
+	}
+	if excludedFmt(dir, a) {
+		vf.Stop()
+	}
+	objs, govs = append(objs, a.obj), append(govs, a.gov)
+	format := "<%" + string(dir) + ">"
+	var got string
+	var err error
+	res := vf.Guard(func() { got, err = tengo.Format(format, objs...) }, 3000000)
+	vf.Assert(res == 0 && err == nil, "format with two flags and a width returns: "+vf.LastGuard())
+	vf.RealFmt(true)
+	want := fmt.Sprintf(format, govs...)
+	vf.RealFmt(false)
+	if got != want {
+		fmtMismatch(want, got, dir, govs[:len(govs)-1], a)
+	}
+	vf.Reach("flagpairs")
+}
+
+// ---- operands of '*' that are rejected, or are not ints
+
+var starOperandFormats = []string{"<%*d|%d>", "<%.*d|%d>", "<%-*x|%x>", "<%[1]*d|%d>", "<%*s|%v>"}
+
+// C17_StarOperand: a '*' operand outside the accepted range (magnitude above
+// 10^6), or not an int at all, is reported once (%!(BADWIDTH) / %!(BADPREC)),
+// is consumed, and the following operands are formatted by the following
+// directives, as fmt.Sprintf does.
+func C17_StarOperand() {
+	f := starOperandFormats[vf.Choice("fmt", len(starOperandFormats))]
+	ops := []fmtArg{
+		{"int 1000001", &tengo.Int{Value: 1000001}, 1000001},
+		{"int -1000001", &tengo.Int{Value: -1000001}, -1000001},
+		{"int min", &tengo.Int{Value: -9223372036854775808}, -9223372036854775808},
+		{"int 5", &tengo.Int{Value: 5}, 5},
+		{"string x", &tengo.String{Value: "x"}, "x"},
+		{"bytes", &tengo.Bytes{Value: []byte{1}}, []byte{1}},
+		{"string 3", &tengo.String{Value: "3"}, "3"},
+		{"float 3.5", &tengo.Float{Value: 3.5}, 3.5},
+		{"bool true", tengo.TrueValue, true},
+	}
+	op := ops[vf.Choice("operand", len(ops))]
+	x := vf.Int64("x")
+	vf.Assume(x >= -9)
+	vf.Assume(x <= 9)
+	y := int64(42)
+	var got string
+	var err error
+	res := vf.Guard(func() { got, err = tengo.Format(f, op.obj, &tengo.Int{Value: x}, &tengo.Int{Value: y}) }, 3000000)
+	vf.Assert(res == 0 && err == nil, "format with a rejected '*' operand returns: "+vf.LastGuard())
+	vf.RealFmt(true)
+	want := fmt.Sprintf(f, op.gov, x, y)
+	vf.RealFmt(false)
+	if got != want {
+		// recorded deviation: the port converts a non-int '*' operand with its
+		// own coercion (float 3.5 -> 3, "3" -> 3, true -> 1) where fmt rejects it
+		if _, isInt := op.obj.(*tengo.Int); !isInt {
+			if n, ok := tengo.ToInt64(op.obj); ok {
+				vf.RealFmt(true)
+				model := fmt.Sprintf(f, int(n), x, y)
+				vf.RealFmt(false)
+				if got == model {
+					vf.Fail("a '*' operand that is not an int is converted instead of rejected | `" + f + "` operand " + op.name)
+				}
+			}
+		}
+		vf.Fail("a rejected or non-int '*' operand is handled as fmt.Sprintf handles it | `" + f + "` operand " + op.name + " got " + got + " want " + want)
+	}
+	vf.Reach("staroperand")
 }
